@@ -290,13 +290,14 @@ impl QuicMultiplexer {
                     quic_conn.close(false, QUIC_CONNECTION_CLOSE_CODE, e.to_string().as_bytes());
             }
 
-            if let Some(timeout) = quic_conn.timeout() {
-                self.update_connection_deadline(conn_id, timeout);
-            }
-
             if let Err(e) = flush_pending_data(&mut quic_conn, &self.socket, &entry.peer, &self.id)
             {
                 log_id!(debug, self.id, "Failed to flush QUIC connection: {}", e);
+            }
+
+            // Sending arms the loss detection timer: the deadline must be taken after the flush
+            if let Some(timeout) = quic_conn.timeout() {
+                self.update_connection_deadline(conn_id, timeout);
             }
         }
 
